@@ -32,8 +32,12 @@ func (e *kvElection) logWithContext(ctx context.Context) []zap.Field {
 	}
 
 	// Add correlation ID if present in context
-	if correlationID := ctx.Value("correlation_id"); correlationID != nil {
-		fields = append(fields, zap.String("correlation_id", correlationID.(string)))
+	// ctx may be nil: StopWithContext clears the election context while
+	// goroutines it does not wait for (or a concurrent Stop) are still logging.
+	if ctx != nil {
+		if correlationID := ctx.Value("correlation_id"); correlationID != nil {
+			fields = append(fields, zap.String("correlation_id", correlationID.(string)))
+		}
 	}
 
 	return fields
